@@ -127,7 +127,7 @@ func (r c04Rule) text() string {
 
 var c04TypeBits = map[string]rules.RequestType{"script": rules.TypeScript, "image": rules.TypeImage, "stylesheet": rules.TypeStylesheet, "document": rules.TypeDocument, "subdocument": rules.TypeSubdocument}
 
-var c04DNSTypes = map[string]uint16{"A": 1, "AAAA": 28, "CNAME": 5, "TXT": 16}
+var c04DNSTypes = map[string]uint16{"A": 1, "AAAA": 28, "CNAME": 5, "TXT": 16, "HTTPS": 65, "CAA": 257, "ANY": 255}
 
 // refDomainOrSub is "host is name or a sub-domain of name"; "name.*" stands
 // for name + the ICANN public suffix of host, on a label boundary.
@@ -369,7 +369,7 @@ func c04Requests() (qs []c04Req) {
 	ips := []string{"", "127.0.0.1", "192.168.0.7", "fe80::1", "10.0.0.1"}
 	tagsets := [][]string{nil, {"pc"}, {"phone"}, {"pc", "phone"}, {"printer", "tv"}}
 	for _, h := range []string{"example.org", "ads.sub.example.org", "1.2.3.4"} {
-		for _, dt := range []uint16{1, 28, 5} {
+		for _, dt := range []uint16{1, 28, 5, 65, 257} {
 			for _, n := range names {
 				for _, ip := range ips {
 					for _, ts := range tagsets {
@@ -403,7 +403,22 @@ func c04CheckRule(c *Ctx, r c04Rule, qs []c04Req, sigKey string) (evals int64, p
 	if err != nil {
 		return 0, false
 	}
-	for _, q := range qs {
+	// forward, then backward on the same rule object: the answer must not depend
+	// on which request the rule saw first
+	order := make([]c04Req, 0, 2*len(qs))
+	if len(text)%2 == 0 {
+		order = append(order, qs...)
+	}
+	for i := len(qs) - 1; i >= 0; i-- {
+		order = append(order, qs[i])
+	}
+	if len(text)%2 == 1 {
+		order = append(order, qs...)
+	}
+	if len(text)%3 != 0 {
+		order = order[:len(qs)] // two thirds of the rules see one order only (which one depends on the rule)
+	}
+	for _, q := range order {
 		evals++
 		var got bool
 		if p := protect(func() { got = nr.Match(q.q) }); p != nil {
@@ -435,7 +450,7 @@ func c04Slots() []c04Slot {
 			func(r *c04Rule, vs []nv) { r.clients = vs }},
 		{"ctag", []nv{{"pc", false}, {"phone", true}, {"printer", false}, {"tv", true}},
 			func(r *c04Rule, vs []nv) { r.ctags = vs }},
-		{"dnstype", []nv{{"A", false}, {"AAAA", true}, {"cname", false}, {"TXT", true}},
+		{"dnstype", []nv{{"A", false}, {"AAAA", true}, {"cname", false}, {"TXT", true}, {"HTTPS", false}, {"CAA", true}},
 			func(r *c04Rule, vs []nv) { r.dnstypes = vs }},
 		{"types", []nv{{"script", false}, {"image", true}, {"stylesheet", false}, {"script", true}, {"subdocument", false}},
 			func(r *c04Rule, vs []nv) { r.types = vs }},
